@@ -504,3 +504,39 @@ def keeps_no_state(chk, rule, rel, quals, why):
         chk.ob(rule, f"{rel}:{q}", "keeps-no-state", not pr,
                why + ": nothing is stored into self or a module-level object (a cache validated against every input excepted), no "
                "global declaration, no written mutable default", node=fd, strength="N", **({"problems": pr} if pr else {}))
+
+
+def from_dict_verbatim(chk, rule, rel, cls, why):
+    """`cls.from_dict(d)` makes an object whose attributes are the entries of d, verbatim: a default object, one `__dict__.update(d)`,
+    nothing else stored (an entry that is cleaned, converted or dropped on the way is no longer what the caller configured)"""
+    fn = chk.fn(rel, f"{cls}.from_dict")
+    from .astutil import stores as _stores
+    ups = [c for c in ast.walk(fn) if isinstance(c, ast.Call) and norm(c.func).endswith(".__dict__.update") and len(c.args) == 1]
+    obj = norm(ups[0].func).split(".")[0] if ups else None
+    dpar = fn.args.args[1].arg if len(fn.args.args) > 1 else "d"
+    other = [norm(s0)[:70] for t_, v_, s0 in _stores(fn) if isinstance(t_, (ast.Attribute, ast.Subscript)) and _root_name(t_) in (obj, dpar)]
+    rebound = [x.id for x in ast.walk(fn) if isinstance(x, ast.Name) and x.id == dpar and isinstance(x.ctx, (ast.Store, ast.Del))]
+    ok = len(ups) == 1 and norm(ups[0].args[0]) == dpar and not other and not rebound
+    chk.ob(rule, f"{rel}:{cls}.from_dict", "entries-become-attributes-verbatim", ok,
+           f"{cls}.from_dict(d) updates a default object's __dict__ with d and stores nothing else ({why})", node=fn, strength="N",
+           **({"other_stores": other} if other else {}))
+
+
+def ids_only_translation(chk, rule, rel, qual, why):
+    """`Dominion.raire_to_dominion(cvr_list)` translates identifiers and nothing else: it returns the list it was given, and the only
+    thing it stores is the `id` of the list's own elements (a copy that carries over a chosen set of attributes loses the others:
+    the phantom flag, for one)"""
+    if not chk.idx.has_func(rel, qual):
+        return
+    fn = chk.fn(rel, qual)
+    from .astutil import stores as _stores
+    par = fn.args.args[-1].arg if fn.args.args else "cvr_list"
+    rets = [r for r in walk_local(fn) if isinstance(r, ast.Return)]
+    loops = [l for l in walk_local(fn) if isinstance(l, ast.For) and norm(l.iter) == par]
+    lv = norm(loops[0].target) if loops else None
+    sts = [(t_, v_, s0) for t_, v_, s0 in _stores(fn)]
+    only_ids = bool(sts) and all(isinstance(t_, ast.Attribute) and t_.attr == "id" and norm(t_.value) == lv for t_, v_, s0 in sts)
+    ctor = [c for c in ast.walk(fn) if isinstance(c, ast.Call) and norm(c.func) in ("CVR", "copy.copy", "copy.deepcopy", "deepcopy")]
+    ok = len(rets) == 1 and norm(rets[0].value) == par and len(loops) == 1 and only_ids and not ctor
+    chk.ob(rule, f"{rel}:{qual}", "translates-ids-in-place", ok,
+           f"the identifier translation returns the very records it was given with only their id re-written ({why})", node=fn, strength="N")
